@@ -125,8 +125,11 @@ theorem firstUndefined_some (st : St) (pos : Nat) (n : String)
     have hp := List.min?_mem hmin
     obtain ⟨e, he, hfe⟩ := List.mem_map.mp hp
     simp only
-    rw [List.find?_isSome]
-    exact ⟨e, he, by simp [hfe]⟩
+    cases hl : ((stillUndefined st).filter (·.1 == p)).map (·.2) with
+    | cons a as => rfl
+    | nil =>
+      simp only [List.map_eq_nil_iff, List.filter_eq_nil_iff] at hl
+      exact absurd (by simpa using hfe) (hl e he)
 
 theorem undefined_label_refused (st : St) (pos : Nat) (n : String)
     (hm : (pos, n) ∈ st.undefined) (hn : st.labels.lookup n = none) : ∃ r, preflight st = .error r := by
